@@ -1,3 +1,42 @@
-From BP Require Import Base.Chars.
-Theorem C05_placeholder : True. Proof. exact I. Qed.
-Print Assumptions C05_placeholder.
+(* C05 - parse -> write -> parse preserves content; written text is a fixpoint.
+   Statements only; proofs in Proofs/RoundTrip*.v.  parse_default / write_default are the public entry points with
+   their default stacks composed from the engine models (Model/Pipeline.v); that composition is compared with
+   parse_string / write_string on every run (op 150). *)
+From Coq Require Import List NArith ZArith Bool.
+From BP Require Import Base.Chars Model.Blocks Model.Writer Model.Grammar Model.Pipeline Spec.C05.
+From BP Require Import Proofs.LibAddProofs Proofs.RoundTrip Proofs.RoundTrip2 Proofs.RoundTrip6 Proofs.RoundTrip7.
+Import ListNotations.
+
+(* for EVERY document d of the dialect grammar (duplicate-free: distinct entry keys, @string names and field names)
+   and EVERY format with whitespace-only indent and separator (any value_column incl. 'auto', either trailing_comma):
+   writing the parsed library and parsing the result gives the same sequence of blocks with the same types, keys,
+   field order and values and the same comment / preamble / string content - outside known finding K7 (some key,
+   comment or value ends in a backslash) *)
+Theorem C05_roundtrip : forall d f l1 t1 l2, wf_doc d -> nodup_doc d -> wf_fmt f ->
+  parse_default (render d) = PVal l1 -> known_K7 l1 = false ->
+  write_default f l1 = PVal t1 -> parse_default t1 = PVal l2 -> content l2 = content l1.
+Proof. exact roundtrip_content. Qed.
+Print Assumptions C05_roundtrip.
+
+(* ... and writing that second library reproduces the first output byte for byte *)
+Theorem C05_fixpoint : forall d f l1 t1 l2, wf_doc d -> nodup_doc d -> wf_fmt f ->
+  parse_default (render d) = PVal l1 -> known_K7 l1 = false ->
+  write_default f l1 = PVal t1 -> parse_default t1 = PVal l2 -> write_default f l2 = PVal t1.
+Proof. exact roundtrip_fixpoint_doc. Qed.
+Print Assumptions C05_fixpoint.
+
+(* none of the four steps can fail: the hypotheses above are never vacuous *)
+Theorem C05_total : forall d f, wf_doc d -> nodup_doc d -> wf_fmt f ->
+  exists l1, parse_default (render d) = PVal l1 /\
+    (known_K7 l1 = false ->
+     exists t1 l2, roundtrip f (render d) = PVal (t1, l2, t1) /\ content l2 = content l1).
+Proof. exact C05_roundtrip_total. Qed.
+Print Assumptions C05_total.
+
+(* the default write stack and the writer depend on a library only through its content (for libraries without
+   failed blocks, with distinct keys and well-typed enclosing metadata - all true of parse results) *)
+Theorem C05_write_depends_on_content : forall f bs bs',
+  content bs = content bs' -> wf_blocks bs -> no_failed bs = true -> md_ok bs = true -> md_ok bs' = true ->
+  write_default f bs = write_default f bs'.
+Proof. exact write_default_content. Qed.
+Print Assumptions C05_write_depends_on_content.
